@@ -76,7 +76,9 @@ Definition with_sess (r : req) (s : sess) : req :=
 (* ------------------------------------------------------------------ the reference store *)
 Record store := {
   codes : fmap (bool * req);        (* AuthorizeCodes: active flag *)
-  access : fmap req;                (* AccessTokens *)
+  access : fmap req;                (* AccessTokens minted by the token endpoint *)
+  implicit : fmap req;              (* AccessTokens minted by the authorization endpoint (implicit / hybrid); the
+                                       reference store keeps both kinds in one map, signatures never collide *)
   refresh : fmap (bool * req);      (* RefreshTokens: active flag *)
   at_idx : fmap nat;                (* AccessTokenRequestIDs: request id -> signature *)
   rt_idx : fmap nat;                (* RefreshTokenRequestIDs *)
@@ -87,18 +89,19 @@ Record store := {
 }.
 
 Definition store0 : store :=
-  {| codes := fempty; access := fempty; refresh := fempty; at_idx := fempty; rt_idx := fempty; pkce := fempty;
+  {| codes := fempty; access := fempty; implicit := fempty; refresh := fempty; at_idx := fempty; rt_idx := fempty; pkce := fempty;
      oidc := fempty; device := fempty; par := fempty |}.
 
-Definition set_codes st v := {| codes := v; access := access st; refresh := refresh st; at_idx := at_idx st; rt_idx := rt_idx st; pkce := pkce st; oidc := oidc st; device := device st; par := par st |}.
-Definition set_access st v := {| codes := codes st; access := v; refresh := refresh st; at_idx := at_idx st; rt_idx := rt_idx st; pkce := pkce st; oidc := oidc st; device := device st; par := par st |}.
-Definition set_refresh st v := {| codes := codes st; access := access st; refresh := v; at_idx := at_idx st; rt_idx := rt_idx st; pkce := pkce st; oidc := oidc st; device := device st; par := par st |}.
-Definition set_at_idx st v := {| codes := codes st; access := access st; refresh := refresh st; at_idx := v; rt_idx := rt_idx st; pkce := pkce st; oidc := oidc st; device := device st; par := par st |}.
-Definition set_rt_idx st v := {| codes := codes st; access := access st; refresh := refresh st; at_idx := at_idx st; rt_idx := v; pkce := pkce st; oidc := oidc st; device := device st; par := par st |}.
-Definition set_oidc st v := {| codes := codes st; access := access st; refresh := refresh st; at_idx := at_idx st; rt_idx := rt_idx st; pkce := pkce st; oidc := v; device := device st; par := par st |}.
-Definition set_device st v := {| codes := codes st; access := access st; refresh := refresh st; at_idx := at_idx st; rt_idx := rt_idx st; pkce := pkce st; oidc := oidc st; device := v; par := par st |}.
-Definition set_par st v := {| codes := codes st; access := access st; refresh := refresh st; at_idx := at_idx st; rt_idx := rt_idx st; pkce := pkce st; oidc := oidc st; device := device st; par := v |}.
-Definition set_pkce st v := {| codes := codes st; access := access st; refresh := refresh st; at_idx := at_idx st; rt_idx := rt_idx st; pkce := v; oidc := oidc st; device := device st; par := par st |}.
+Definition set_codes st v := {| codes := v; access := access st; implicit := implicit st; refresh := refresh st; at_idx := at_idx st; rt_idx := rt_idx st; pkce := pkce st; oidc := oidc st; device := device st; par := par st |}.
+Definition set_access st v := {| codes := codes st; access := v; implicit := implicit st; refresh := refresh st; at_idx := at_idx st; rt_idx := rt_idx st; pkce := pkce st; oidc := oidc st; device := device st; par := par st |}.
+Definition set_implicit st v := {| codes := codes st; access := access st; implicit := v; refresh := refresh st; at_idx := at_idx st; rt_idx := rt_idx st; pkce := pkce st; oidc := oidc st; device := device st; par := par st |}.
+Definition set_refresh st v := {| codes := codes st; access := access st; implicit := implicit st; refresh := v; at_idx := at_idx st; rt_idx := rt_idx st; pkce := pkce st; oidc := oidc st; device := device st; par := par st |}.
+Definition set_at_idx st v := {| codes := codes st; access := access st; implicit := implicit st; refresh := refresh st; at_idx := v; rt_idx := rt_idx st; pkce := pkce st; oidc := oidc st; device := device st; par := par st |}.
+Definition set_rt_idx st v := {| codes := codes st; access := access st; implicit := implicit st; refresh := refresh st; at_idx := at_idx st; rt_idx := v; pkce := pkce st; oidc := oidc st; device := device st; par := par st |}.
+Definition set_oidc st v := {| codes := codes st; access := access st; implicit := implicit st; refresh := refresh st; at_idx := at_idx st; rt_idx := rt_idx st; pkce := pkce st; oidc := v; device := device st; par := par st |}.
+Definition set_device st v := {| codes := codes st; access := access st; implicit := implicit st; refresh := refresh st; at_idx := at_idx st; rt_idx := rt_idx st; pkce := pkce st; oidc := oidc st; device := v; par := par st |}.
+Definition set_par st v := {| codes := codes st; access := access st; implicit := implicit st; refresh := refresh st; at_idx := at_idx st; rt_idx := rt_idx st; pkce := pkce st; oidc := oidc st; device := device st; par := v |}.
+Definition set_pkce st v := {| codes := codes st; access := access st; implicit := implicit st; refresh := refresh st; at_idx := at_idx st; rt_idx := rt_idx st; pkce := v; oidc := oidc st; device := device st; par := par st |}.
 
 (* store methods; the result type says which error the method returned *)
 Inductive serr := SNotFound | SInactive.
@@ -113,7 +116,16 @@ Definition create_pkce st k r := set_pkce st (upd (pkce st) k (Some r)).
 Definition delete_pkce st k := set_pkce st (upd (pkce st) k None).
 Definition create_access st k (r : req) :=
   set_at_idx (set_access st (upd (access st) k (Some r))) (upd (at_idx st) (r_id r) (Some k)).
-Definition delete_access st k := set_access st (upd (access st) k None).
+(* DeleteAccessTokenSession(signature): whichever endpoint minted it *)
+Definition delete_access st k := set_implicit (set_access st (upd (access st) k None)) (upd (implicit st) k None).
+Definition create_implicit st k (r : req) :=
+  set_at_idx (set_implicit st (upd (implicit st) k (Some r))) (upd (at_idx st) (r_id r) (Some k)).
+(* GetAccessTokenSession(signature) *)
+Definition lookup_access st (k : option nat) : option req :=
+  match k with
+  | None => None
+  | Some k => match access st k with Some r => Some r | None => implicit st k end
+  end.
 Definition create_refresh st k (r : req) :=
   set_rt_idx (set_refresh st (upd (refresh st) k (Some (true, r)))) (upd (rt_idx st) (r_id r) (Some k)).
 Definition delete_refresh st k := set_refresh st (upd (refresh st) k None).
@@ -150,10 +162,10 @@ Definition rotate_refresh st rid : store * option serr :=
   end.
 
 (* ------------------------------------------------------------------ credentials handed out *)
-Inductive ckind := KCode | KAccess | KRefresh | KDevice | KUser | KPar.
+Inductive ckind := KCode | KAccess | KRefresh | KDevice | KUser | KPar | KImplicit.
 Definition ckind_eqb a b :=
   match a, b with
-  | KCode, KCode | KAccess, KAccess | KRefresh, KRefresh | KDevice, KDevice | KUser, KUser | KPar, KPar => true
+  | KCode, KCode | KAccess, KAccess | KRefresh, KRefresh | KDevice, KDevice | KUser, KUser | KPar, KPar | KImplicit, KImplicit => true
   | _, _ => false
   end.
 
